@@ -5,6 +5,18 @@
   `Spec.selectDocs (patchDT f)` on the collection the expiry pass leaves.
 -/
 import Proofs.C10
+import Proofs.C10ExtDistinct
+import Proofs.C10ExtSingle
+import Proofs.C10ExtMatch
+import Proofs.C10ExtModified
+import Proofs.C10ExtCex
+import Proofs.C10ExtOne
+import Proofs.C10ExtStep
+import Proofs.C10ExtInsert
+import Proofs.C10ExtCount
+import Proofs.C10ExtBulk
+import Proofs.C10ExtLazy
+import Proofs.C10ExtDemo
 
 namespace MongoModel.Props.C10
 open MongoModel MongoModel.Spec
@@ -71,5 +83,433 @@ example : (match selectDocs (.doc [("a", .doc [("$gt", .int 1)])])
      (.int 3, .doc [("_id", .int 3), ("a", .arr [.int 0, .int 5])])] with
     | .ok sel => sel.map (·.1) == [.int 2, .int 3]
     | .error _ => false) = true := by decide +kernel
+
+/-! ## Extension: the remaining entry points and the remaining counts
+
+`distinct`, `find_one`, `find_one_and_*`, the aggregation `$match` stage and `bulk_write` are
+related to the SAME selection `Spec.selectDocs (patchDT f)`; `modified_count`, `deleted_count`,
+`inserted_id(s)` and the bulk counters are related to what changed.  Vocabulary:
+Spec/CountsExt.lean. -/
+
+/-- the collection of the non-vacuity examples below: four documents, the filter `{a: 2}` selects
+    the last three -/
+def demo : Coll :=
+  { docs := [(.int 1, .doc [("_id", .int 1), ("a", .int 1), ("t", .arr [.int 1, .int 2])]),
+             (.int 2, .doc [("_id", .int 2), ("a", .int 2), ("t", .arr [.dbl 1 0, .int 3])]),
+             (.int 3, .doc [("_id", .int 3), ("a", .int 2), ("t", .int 2)]),
+             (.int 4, .doc [("_id", .int 4), ("a", .int 2)])] }
+
+/-- `demo` satisfies the invariant hypotheses used below (C05: every reachable collection does) -/
+example : IdInv demo ∧ GoodKeys demo := Proofs.C10Ext.inv_check demo (by decide +kernel)
+
+example : demo.ttlIndexes = [] ∧ demo.docs ≠ [] ∧ expire 0 demo = .ok demo ∧
+    (∀ p ∈ demo.docs, p.1.isArr = false) := by
+  refine ⟨rfl, by simp [demo], rfl, ?_⟩
+  intro p hp
+  simp only [demo, List.mem_cons, List.not_mem_nil, or_false] at hp
+  rcases hp with rfl | rfl | rfl | rfl <;> rfl
+
+/-! ### 1. distinct -/
+
+/-- **distinct_eq_find.** `distinct(key, filter)` reads its values from exactly the documents the
+    shared selection yields: every returned value is one of the items (`Spec.distinctItems`: the
+    values the path reaches, an array standing for its elements, a missing field for nothing) of a
+    SELECTED document; every item of every selected document is returned, itself or a value
+    Python-`==` to it (`pyEq`: `1 == 1.0 == True` — the code collects into a `set`); and no two
+    returned values are `==`. -/
+theorem distinct_eq_find (now : Int) (c c1 : Coll) (key : String) (fs : Fields)
+    (sel : List (Val × Val)) (vs : List Val) (he : expire now c = .ok c1) (hne : c1.docs ≠ [])
+    (hs : selectDocs (patchDT (.doc fs)) c1.docs = .ok sel)
+    (h : (distinctColl now c key (.doc fs)).2 = .ok vs) :
+    (∀ x ∈ vs, ∃ p ∈ sel, ∃ its, distinctItems key p.2 = .ok its ∧ x ∈ its) ∧
+    (∀ p ∈ sel, ∃ its, distinctItems key p.2 = .ok its ∧
+      ∀ x ∈ its, x ∈ vs ∨ pyIn x vs = true) ∧
+    vs.Pairwise (fun a b => pyEq a b = false) :=
+  Proofs.C10Ext.distinct_eq_find now c c1 key fs sel vs he hne hs h
+
+/-- … exactly: the answer is the de-duplication (first occurrence kept, up to `pyEq`) of the
+    items of the selected documents, in natural order, all of them hashable. -/
+theorem distinct_exact (now : Int) (c c1 : Coll) (key : String) (fs : Fields)
+    (sel : List (Val × Val)) (vs : List Val) (he : expire now c = .ok c1) (hne : c1.docs ≠ [])
+    (hs : selectDocs (patchDT (.doc fs)) c1.docs = .ok sel)
+    (h : (distinctColl now c key (.doc fs)).2 = .ok vs) :
+    ∃ iss, List.Forall₂ (fun (p : Val × Val) its => distinctItems key p.2 = .ok its) sel iss ∧
+      (∀ x ∈ iss.flatten, hashableKey x = true) ∧ vs = dedupe iss.flatten :=
+  Proofs.C10Ext.distinct_exact now c c1 key fs sel vs he hne hs h
+
+/-- `distinct` answers exactly when every SELECTED document yields its items and all of them are
+    hashable (a list or sub-document inside a list is not: `TypeError`); documents the filter
+    does not select are never looked at. -/
+theorem distinct_answers_iff (now : Int) (c c1 : Coll) (key : String) (fs : Fields)
+    (sel : List (Val × Val)) (he : expire now c = .ok c1) (hne : c1.docs ≠ [])
+    (hs : selectDocs (patchDT (.doc fs)) c1.docs = .ok sel) :
+    (∃ vs, (distinctColl now c key (.doc fs)).2 = .ok vs) ↔
+      ∀ p ∈ sel, ∃ its, distinctItems key p.2 = .ok its ∧ ∀ x ∈ its, hashableKey x = true :=
+  Proofs.C10Ext.distinct_answers_iff now c c1 key fs sel he hne hs
+
+/-- … and it raises whatever `find` raises on that filter. -/
+theorem distinct_raises_with_find (now : Int) (c : Coll) (key : String) (f : Val) (e : Err)
+    (h : (findColl now c f).2 = .error e) : (distinctColl now c key f).2 = .error e :=
+  Proofs.C10Ext.distinct_raises_with_find now c key f e h
+
+/-- non-vacuity: `distinct("t", {a: 2})` on `demo` reads `[1.0, 3]`, `2` and nothing (document 4
+    has no `t`) from the three selected documents — not the `1`, `2` of document 1; without
+    filter the `1` of document 1 comes first and hides the `1.0` of document 2 -/
+example :
+    (match (distinctColl 0 demo "t" (.doc [("a", .int 2)])).2 with
+     | .ok vs => vs == [.dbl 1 0, .int 3, .int 2]
+     | .error _ => false) = true ∧
+    (match (distinctColl 0 demo "t" (.doc [])).2 with
+     | .ok vs => vs == [.int 1, .int 2, .int 3]
+     | .error _ => false) = true ∧
+    (match selectDocs (patchDT (.doc [("a", .int 2)])) demo.docs with
+     | .ok sel => sel.map (·.1) == [.int 2, .int 3, .int 4]
+     | .error _ => false) = true := by decide +kernel
+
+/-! ### 2. find_one and find_one_and_* -/
+
+/-- **find_one_in_selection.** `find_one(filter, projection, sort)` returns nothing exactly when
+    the shared selection is empty; otherwise it returns the projection of a SELECTED document, the
+    first one in the requested sort order. -/
+theorem find_one_in_selection (now : Int) (c c1 : Coll) (fs : Fields) (proj : Val)
+    (sort : Option SortSpec) (sel : List (Val × Val)) (out : Option Val)
+    (he : expire now c = .ok c1) (hne : c1.docs ≠ [])
+    (hs : selectDocs (patchDT (.doc fs)) c1.docs = .ok sel)
+    (h : (findOneColl now c (.doc fs) proj sort).2 = .ok out) :
+    (out = none ↔ sel = []) ∧
+    (∀ o, out = some o → ∃ p ∈ sel, firstSorted sort sel = .ok (some p.2) ∧
+      copyOnlyFields p.2 proj = .ok o) :=
+  Proofs.C10Ext.find_one_in_selection now c c1 fs proj sort sel out he hne hs h
+
+/-- **fam_target_in_selection.** `find_one_and_update / _replace / _delete` (`update = none` is
+    the delete, called as the entry point calls it: no upsert, BEFORE) on a collection without TTL
+    index: with an empty selection and no upsert it returns nothing and changes nothing; otherwise
+    its target is a SELECTED entry `p` — the first in sort order —, no entry under another key
+    changes (`sameExcept`), and with return_document=BEFORE the projection of `p` is returned.
+    `hna`, `hid` hold in every reachable state (`storeKey` rejects lists; `insert` normalises):
+    without them the statement fails on unreachable states (Props/C14 `fam_*_spec_full_fails`). -/
+theorem fam_target_in_selection (cfg : Cfg) (now : Int) (c c' : Coll) (fs : Fields) (proj : Val)
+    (update : Option Val) (upsert after : Bool) (sort : Option SortSpec)
+    (sel : List (Val × Val)) (ret : Option Val)
+    (hne : c.docs ≠ []) (hi : IdInv c) (hg : GoodKeys c) (hn : c.ttlIndexes = [])
+    (hna : ∀ p ∈ c.docs, p.1.isArr = false)
+    (hs : selectDocs (patchDT (.doc fs)) c.docs = .ok sel)
+    (hid : ∀ p ∈ sel, ∀ tid, idOf p.2 = some tid → isScalar tid = true ∧ patchDT tid = tid)
+    (hda : update = none → upsert = false ∧ after = false)
+    (h : findAndModify cfg now c (.doc fs) proj update upsert sort after = (c', .ok ret)) :
+    (sel = [] → upsert = false → ret = none ∧ c'.docs = c.docs) ∧
+    (sel ≠ [] → ∃ p ∈ sel, ∃ tid, idOf p.2 = some tid ∧
+      firstSorted sort sel = .ok (some p.2) ∧ sameExcept tid c.docs c'.docs ∧
+      (after = false → copyOnlyFields p.2 proj = .ok (ret.getD .null) ∧ ret.isSome)) :=
+  Proofs.C10Ext.fam_target_in_selection cfg now c c' fs proj update upsert after sort sel ret hne hi
+    hg hn hna hs hid hda h
+
+/-- non-vacuity: on `demo`, `find_one_and_update({a: 2}, {$set: {hit: 1}}, sort=[(_id, -1)])`
+    returns document 4 (selected, first in sort order, last in natural order) and rewrites it;
+    `find_one({a: 7})` returns nothing; every selected `_id` is a normalised scalar -/
+example :
+    (match findAndModify {} 0 demo (.doc [("a", .int 2)]) .null
+        (some (.doc [("$set", .doc [("hit", .int 1)])])) false (some [("_id", -1)]) false with
+     | (c', .ok (some ret)) =>
+       ret == .doc [("_id", .int 4), ("a", .int 2)] &&
+       (c'.lookup (.int 4) == some (.doc [("_id", .int 4), ("a", .int 2), ("hit", .int 1)]))
+     | _ => false) = true ∧
+    (match (findOneColl 0 demo (.doc [("a", .int 7)]) .null none).2 with
+     | .ok none => true
+     | _ => false) = true ∧
+    demo.docs.all (fun p => match idOf p.2 with
+      | some tid => isScalar tid && (patchDT tid == tid)
+      | none => false) = true := by decide +kernel
+
+/-! ### 3. the aggregation `$match` stage -/
+
+/-- **aggregate_match_eq_find.** The `$match` stage applied to the stored documents (what the
+    collection holds after the expiry pass `aggregate` starts with, as `find` does) answers what
+    `find` answers on the same filter — the same documents in the same order, the same error, the
+    empty collection included (the filter is validated on `{}`).  `hn`: the stored documents are
+    normalised, as `insert` / `update` leave them (the hypothesis of Props.C03.match_is_find). -/
+theorem aggregate_match_eq_find (now : Int) (c c1 : Coll) (fs : Fields)
+    (he : expire now c = .ok c1) (hn : ∀ p ∈ c1.docs, patch p.2 = p.2) :
+    Pipe.matchStage (.doc fs) (c1.docs.map (·.2)) = (findColl now c (.doc fs)).2 :=
+  Proofs.C10Ext.aggregate_match_eq_find now c c1 fs he hn
+
+/-- … in C10's terms: `$match` selects with the shared match relation. -/
+theorem aggregate_match_is_selection (now : Int) (c c1 : Coll) (fs : Fields)
+    (he : expire now c = .ok c1) (hne : c1.docs ≠ []) (hn : ∀ p ∈ c1.docs, patch p.2 = p.2) :
+    Pipe.matchStage (.doc fs) (c1.docs.map (·.2)) =
+      (selectDocs (patchDT (.doc fs)) c1.docs).map (·.map (·.2)) :=
+  Proofs.C10Ext.aggregate_match_is_selection now c c1 fs he hne hn
+
+/-- non-vacuity: the documents of `demo` are normalised and `$match {a: 2}` keeps three of them -/
+example :
+    demo.docs.all (fun p => patch p.2 == p.2) = true ∧
+    (match Pipe.matchStage (.doc [("a", .int 2)]) (demo.docs.map (·.2)) with
+     | .ok ds => ds.length == 3
+     | .error _ => false) = true := by decide +kernel
+
+/-! ### 4. the counts -/
+
+/-- **update_many_modified_count**, natural reading: `modified_count` is the number of selected
+    documents whose CONTENT changed (the stored document is no longer `==`, as a dict, to what it
+    was).  FALSE of the model and of the code — known finding `modified-order-only`: a document
+    built by an upsert is an OrderedDict, two OrderedDicts compare order-sensitively, and an
+    update that only re-orders its keys (`$rename c -> c`) is counted as a modification. -/
+def update_many_modified_count_full : Prop :=
+  ∀ (cfg : Cfg) (now : Int) (c c' : Coll) (fs : Fields) (u : Val)
+    (sel : List (Val × Val)) (res : UpdateResult),
+    IdInv c → GoodKeys c → c.ttlIndexes = [] →
+    selectDocs (patchDT (.doc fs)) c.docs = .ok sel →
+    applyUpdateColl cfg now c (.doc fs) u false true = (c', .ok res) →
+    res.nModified = (sel.filter (contentChangedAfter c')).length
+
+theorem update_many_modified_count_full_fails : ¬ update_many_modified_count_full :=
+  Proofs.C10Ext.modified_content_false
+
+/-- the witness is the collection `update_one({_id: 1}, {$set: {c: 1, d: 2}}, upsert=True)`
+    leaves, the call `update_many({}, {$rename: {c: "c"}})` -/
+example :
+    ((applyUpdateColl {} 0 {} (.doc [("_id", .int 1)])
+      (.doc [("$set", .doc [("c", .int 1), ("d", .int 2)])]) true false).1.docs
+        == Proofs.C10Ext.cOD.docs &&
+     (applyUpdateColl {} 0 {} (.doc [("_id", .int 1)])
+      (.doc [("$set", .doc [("c", .int 1), ("d", .int 2)])]) true false).1.od
+        == Proofs.C10Ext.cOD.od) = true :=
+  Proofs.C10Ext.cOD_is_upserted
+
+/-- **update_many_modified_count**, proved (collections without TTL index: expiry is C09's):
+    a successful non-upserting `update_many` reports `matched_count` = the number of selected
+    documents and `modified_count` = the number of selected documents whose stored document,
+    AFTER the call, fails the code's own change test against what it was (`Spec.changedAfter`:
+    Python `!=` on dicts, order-sensitive exactly on the documents built by an upsert); the
+    store keys are the same, in the same order, and nothing is upserted. -/
+theorem update_many_modified_count_partial (cfg : Cfg) (now : Int) (c c' : Coll) (fs : Fields)
+    (u : Val) (sel : List (Val × Val)) (res : UpdateResult)
+    (hi : IdInv c) (hg : GoodKeys c) (hn : c.ttlIndexes = [])
+    (hs : selectDocs (patchDT (.doc fs)) c.docs = .ok sel)
+    (h : applyUpdateColl cfg now c (.doc fs) u false true = (c', .ok res)) :
+    res.n = sel.length ∧ res.nModified = (sel.filter (changedAfter c c')).length ∧
+    c'.docs.map (·.1) = c.docs.map (·.1) ∧ res.upserted = none :=
+  Proofs.C10Ext.update_many_counts cfg now c c' fs u sel res hi hg hn hs h
+
+/-- … and the natural reading holds when no stored document was built by an upsert. -/
+theorem update_many_modified_count_plain (cfg : Cfg) (now : Int) (c c' : Coll) (fs : Fields)
+    (u : Val) (sel : List (Val × Val)) (res : UpdateResult)
+    (hi : IdInv c) (hg : GoodKeys c) (hn : c.ttlIndexes = []) (hod : c.od = [])
+    (hs : selectDocs (patchDT (.doc fs)) c.docs = .ok sel)
+    (h : applyUpdateColl cfg now c (.doc fs) u false true = (c', .ok res)) :
+    res.nModified = (sel.filter (contentChangedAfter c')).length :=
+  Proofs.C10Ext.update_many_modified_plain cfg now c c' fs u sel res hi hg hn hod hs h
+
+/-- non-vacuity: `update_many({a: 2}, {$set: {t: 2}})` on `demo` matches 3 documents and modifies
+    2 (document 3 already has `t: 2`) -/
+example :
+    (match applyUpdateColl {} 0 demo (.doc [("a", .int 2)]) (.doc [("$set", .doc [("t", .int 2)])])
+        false true with
+     | (c', .ok res) =>
+       res.n == 3 && res.nModified == 2 &&
+       (match selectDocs (patchDT (.doc [("a", .int 2)])) demo.docs with
+        | .ok sel => (sel.filter (changedAfter demo c')).map (·.1) == [.int 2, .int 4]
+        | .error _ => false)
+     | _ => false) = true := by decide +kernel
+
+/-- **update_one_counts** (`update_one` and `replace_one` are this one call of `_apply_update`):
+    `matched_count` is 1 when something is selected and 0 otherwise; `modified_count` is 1 exactly
+    when the FIRST selected document fails the change test after the call; nothing is upserted. -/
+theorem update_one_counts (cfg : Cfg) (now : Int) (c c' : Coll) (fs : Fields) (u : Val)
+    (sel : List (Val × Val)) (res : UpdateResult)
+    (hne : c.docs ≠ []) (hi : IdInv c) (hg : GoodKeys c) (hn : c.ttlIndexes = [])
+    (hs : selectDocs (patchDT (.doc fs)) c.docs = .ok sel)
+    (h : applyUpdateColl cfg now c (.doc fs) u false false = (c', .ok res)) :
+    res.n = (sel.take 1).length ∧
+    res.nModified = ((sel.take 1).filter (changedAfter c c')).length ∧
+    res.upserted = none :=
+  Proofs.C10Ext.update_one_counts cfg now c c' fs u sel res hne hi hg hn hs h
+
+/-- what the client sees — `update_one`: `UpdateResult(matched, modified, upserted_id=None)`. -/
+theorem update_one_reports (cfg : Cfg) (now : Int) (c c' : Coll) (fs : Fields) (u up out : Val)
+    (sel : List (Val × Val))
+    (hne : c.docs ≠ []) (hi : IdInv c) (hg : GoodKeys c) (hn : c.ttlIndexes = [])
+    (hs : selectDocs (patchDT (.doc fs)) c.docs = .ok sel) (hup : boolOf up = false)
+    (h : stepColl cfg now c (.arr [.str "update_one", .doc fs, u, up]) = (c', .val out)) :
+    out = reportOf (sel.take 1).length ((sel.take 1).filter (changedAfter c c')).length :=
+  Proofs.C10Ext.update_one_reports cfg now c c' fs u up out sel hne hi hg hn hs hup h
+
+/-- … `replace_one`: the same. -/
+theorem replace_one_reports (cfg : Cfg) (now : Int) (c c' : Coll) (fs : Fields) (r up out : Val)
+    (sel : List (Val × Val))
+    (hne : c.docs ≠ []) (hi : IdInv c) (hg : GoodKeys c) (hn : c.ttlIndexes = [])
+    (hs : selectDocs (patchDT (.doc fs)) c.docs = .ok sel) (hup : boolOf up = false)
+    (h : stepColl cfg now c (.arr [.str "replace_one", .doc fs, r, up]) = (c', .val out)) :
+    out = reportOf (sel.take 1).length ((sel.take 1).filter (changedAfter c c')).length :=
+  Proofs.C10Ext.replace_one_reports cfg now c c' fs r up out sel hne hi hg hn hs hup h
+
+/-- … `update_many`. -/
+theorem update_many_reports (cfg : Cfg) (now : Int) (c c' : Coll) (fs : Fields) (u up out : Val)
+    (sel : List (Val × Val))
+    (hi : IdInv c) (hg : GoodKeys c) (hn : c.ttlIndexes = [])
+    (hs : selectDocs (patchDT (.doc fs)) c.docs = .ok sel) (hup : boolOf up = false)
+    (h : stepColl cfg now c (.arr [.str "update_many", .doc fs, u, up]) = (c', .val out)) :
+    out = reportOf sel.length (sel.filter (changedAfter c c')).length :=
+  Proofs.C10Ext.update_many_reports cfg now c c' fs u up out sel hi hg hn hs hup h
+
+/-- non-vacuity: `replace_one({a: 2}, {a: 9})` on `demo` reports matched 1, modified 1 and
+    rewrites document 2, the first selected one; `update_one({a: 7}, …)` reports 0, 0 -/
+example :
+    (match stepColl {} 0 demo (.arr [.str "replace_one", .doc [("a", .int 2)],
+        .doc [("a", .int 9)], .bool false]) with
+     | (c', .val out) =>
+       out == reportOf 1 1 && (c'.lookup (.int 2) == some (.doc [("_id", .int 2), ("a", .int 9)]))
+     | _ => false) = true ∧
+    (match stepColl {} 0 demo (.arr [.str "update_one", .doc [("a", .int 7)],
+        .doc [("$set", .doc [("x", .int 1)])], .bool false]) with
+     | (_, .val out) => out == reportOf 0 0
+     | _ => false) = true := by decide +kernel
+
+/-- **update_one vs the shared selection**, natural reading: a successful `update_one` implies
+    that the selection is defined (`find` with the same filter does not raise) and
+    `matched_count = min |selection| 1`.  FALSE — known finding `lazy-raise`: `update_one` stops at
+    its first match, so a filter that raises only on a LATER document is accepted by `update_one`
+    and rejected by every other entry point. -/
+def update_one_selection_defined_full : Prop :=
+  ∀ (cfg : Cfg) (now : Int) (c c1 c' : Coll) (fs : Fields) (u : Val) (res : UpdateResult),
+    expire now c = .ok c1 → c1.docs ≠ [] → IdInv c → GoodKeys c →
+    applyUpdateColl cfg now c (.doc fs) u false false = (c', .ok res) →
+    ∃ sel, selectDocs (patchDT (.doc fs)) c1.docs = .ok sel ∧ res.n = min sel.length 1
+
+theorem update_one_selection_defined_full_fails : ¬ update_one_selection_defined_full :=
+  Proofs.C10Ext.update_one_selection_defined_false
+
+/-- the exact class: a successful `update_one` (no upsert) has evaluated the matcher on the stored
+    documents up to the first one it accepts — that one is matched, the ones before it are
+    selected by nobody, the ones after it are not looked at — or on all of them, accepting none.
+    (When the selection IS defined this is `update_one_target_iff_partial` above.) -/
+theorem update_one_selection_defined_partial (cfg : Cfg) (now : Int) (c c1 c' : Coll) (fs : Fields)
+    (u : Val) (res : UpdateResult)
+    (he : expire now c = .ok c1) (hne : c1.docs ≠ []) (hi : IdInv c) (hg : GoodKeys c)
+    (h : applyUpdateColl cfg now c (.doc fs) u false false = (c', .ok res)) :
+    (∃ pre q post, c1.docs = pre ++ q :: post ∧ selectDocs (patchDT (.doc fs)) pre = .ok [] ∧
+      filterApplies (patchDT (.doc fs)) q.2 = .ok true ∧ res.n = 1) ∨
+    (selectDocs (patchDT (.doc fs)) c1.docs = .ok [] ∧ res.n = 0) :=
+  Proofs.C10Ext.update_one_lazy cfg now c c1 c' fs u res he hne hi.1 hg h
+
+/-- non-vacuity (and the witness of `lazy-raise`): two documents, `{$or: [{c: 3}, {c: {$in: 1}}]}`
+    matches the first through its first branch and raises on the second -/
+example :
+    (match applyUpdateColl {} 0 Proofs.C10Ext.cLazy (.doc Proofs.C10Ext.fLazy)
+        (.doc [("$set", .doc [("x", .int 1)])]) false false with
+     | (_, .ok res) => res.n == 1
+     | _ => false) = true ∧
+    (match (findColl 0 Proofs.C10Ext.cLazy (.doc Proofs.C10Ext.fLazy)).2 with
+     | .error _ => true
+     | .ok _ => false) = true := by decide +kernel
+
+/-- **delete_count_eq_size_drop.** `deleted_count` of `delete_one` / `delete_many` is exactly the
+    drop in the number of stored documents (counted after the expiry pass the call starts with),
+    whatever the collection — empty included — and whatever the filter. -/
+theorem delete_count_eq_size_drop (now : Int) (c c1 : Coll) (fs : Fields) (multi : Bool) (n : Nat)
+    (he : expire now c = .ok c1) (hi : IdInv c) (hg : GoodKeys c)
+    (h : (deleteColl now c (.doc fs) multi).2 = .ok n) :
+    (deleteColl now c (.doc fs) multi).1.docs.length + n = c1.docs.length :=
+  Proofs.C10Ext.delete_count_eq_size_drop now c c1 fs multi n he hi hg h
+
+/-- … and it is the size of the selection (1 at most for `delete_one`), the collection the expiry
+    pass leaves empty included. -/
+theorem delete_count_eq_selection (now : Int) (c c1 : Coll) (fs : Fields) (sel : List (Val × Val))
+    (multi : Bool) (n : Nat)
+    (he : expire now c = .ok c1) (hi : IdInv c) (hg : GoodKeys c)
+    (hs : selectDocs (patchDT (.doc fs)) c1.docs = .ok sel)
+    (h : (deleteColl now c (.doc fs) multi).2 = .ok n) :
+    n = (if multi then sel.length else min sel.length 1) :=
+  Proofs.C10Ext.delete_count_all now c c1 fs sel multi n he hi hg hs h
+
+/-- non-vacuity: `delete_many({a: 2})` on `demo` reports 3 and leaves 1 document -/
+example :
+    (match deleteColl 0 demo (.doc [("a", .int 2)]) true with
+     | (c', .ok n) => n == 3 && c'.docs.length == 1
+     | _ => false) = true := by decide +kernel
+
+/-- **insert_one_id.** A successful `insert_one` (no TTL index) appends exactly one entry: the
+    document as stored (`Spec.storedForm`: normalised, with the generated `_id` when it had none),
+    under the key the call returns, which is that document's `_id` and was not a key before. -/
+theorem insert_one_id (cfg : Cfg) (now : Int) (c c' : Coll) (d out : Val) (hn : c.ttlIndexes = [])
+    (h : stepColl cfg now c (.arr [.str "insert_one", d]) = (c', .val out)) :
+    c'.docs = c.docs ++ [(out, storedForm d out)] ∧ idOf (storedForm d out) = some out ∧
+      c.hasKey out = false :=
+  Proofs.C10Ext.insert_one_id cfg now c c' d out hn h
+
+/-- **insert_many_ids.** A successful `insert_many` (ordered or not, no TTL index) appends one
+    entry per input document, in order, and returns exactly their `_id`s (= store keys), in that
+    order: `inserted_ids` are exactly the new `_id`s. -/
+theorem insert_many_ids (cfg : Cfg) (now : Int) (c c' : Coll) (ds : List Val) (ordered out : Val)
+    (hn : c.ttlIndexes = [])
+    (h : stepColl cfg now c (.arr [.str "insert_many", .arr ds, ordered]) = (c', .val out)) :
+    ∃ new, c'.docs = c.docs ++ new ∧ out = .arr (new.map (·.1)) ∧
+      List.Forall₂ (fun d (p : Val × Val) => p.2 = storedForm d p.1 ∧ idOf p.2 = some p.1) ds new :=
+  Proofs.C10Ext.insert_many_ids cfg now c c' ds ordered out hn h
+
+/-- non-vacuity: an unordered `insert_many` of two documents (one without `_id`) into `demo`
+    returns `[7, ObjectId(1000)]` and stores six documents -/
+example :
+    (match stepColl {} 0 demo (.arr [.str "insert_many",
+        .arr [.doc [("_id", .int 7), ("a", .int 0)], .doc [("a", .int 5)]], .bool false]) with
+     | (c', .val out) => out == .arr [.int 7, .oid 1000] && c'.docs.length == 6
+     | _ => false) = true := by decide +kernel
+
+/-! ### 5. bulk_write -/
+
+/-- **bulk_counts_eq_selection.** For a successful `bulk_write` (ordered or not) of non-upserting
+    requests, `nMatched` and `nRemoved` are the sums, over the requests, of the sizes of their
+    selections (`Spec.bulkCounts`: `selectDocs` on the collection the request runs on, i.e. the one
+    its predecessors issued one at a time leave; 1 at most for `UpdateOne` / `ReplaceOne` /
+    `DeleteOne`), `nInserted` is the number of `InsertOne` requests, nothing is upserted.
+    `hinv`: the invariant of C05 on the collections between the requests (every reachable one
+    satisfies it); `hc`: every selection is defined — without it `UpdateOne` falls under
+    `lazy-raise` (see `update_one_selection_defined_full_fails`). -/
+theorem bulk_counts_eq_selection (cfg : Cfg) (now : Int) (c c' : Coll) (reqs : List Val)
+    (ordered : Bool) (out : Val) (M D : Nat)
+    (hp : reqs.all plainRequest = true) (hu : reqs.all noUpsert = true)
+    (hinv : ∀ k < reqs.length, IdInv (seqOps cfg now ((reqs.take k).map asSingle) c) ∧
+      GoodKeys (seqOps cfg now ((reqs.take k).map asSingle) c))
+    (hc : bulkCounts cfg now reqs c = .ok (M, D))
+    (h : bulkWrite cfg now c reqs ordered = (c', .val out)) :
+    ∃ t : BulkTotals, out = t.toVal ∧ t.nMatched = M ∧ t.nRemoved = D ∧
+      t.nInserted = (reqs.filter isInsertOne).length ∧ t.nUpserted = 0 ∧ t.upserted = [] ∧
+      t.errors = [] :=
+  Proofs.C10Ext.bulk_counts_eq_selection cfg now c c' reqs ordered out M D hp hu hinv hc h
+
+/-- one step of it: what a successful request adds to the running totals (with Props.C15
+    `counts_are_sums`: the loop continues from `f t`). -/
+theorem bulk_request_adds_selection (cfg : Cfg) (now : Int) (c c' : Coll) (idx : Nat) (r : Val)
+    (g : BulkTotals → BulkTotals) (a b : Nat) (hi : IdInv c) (hg : GoodKeys c)
+    (hu : noUpsert r = true) (hc : requestCounts now c r = .ok (a, b))
+    (h : bulkOne cfg now c idx r = (c', .ok g)) (t : BulkTotals) :
+    (g t).nMatched = t.nMatched + a ∧ (g t).nRemoved = t.nRemoved + b ∧
+    (g t).nInserted = t.nInserted + ((if isInsertOne r then 1 else 0 : Nat) : Int) ∧
+    (g t).nUpserted = t.nUpserted ∧ (g t).upserted = t.upserted ∧ (g t).errors = t.errors :=
+  Proofs.C10Ext.one_adds cfg now c c' idx r g a b hi hg hu hc h t
+
+/-- the bulk of the non-vacuity example: the `UpdateMany` changes what the later requests select -/
+def demoReqs : List Val := [
+  .arr [.str "UpdateMany", .doc [("a", .int 2)], .doc [("$set", .doc [("a", .int 1)])], .bool false],
+  .arr [.str "InsertOne", .doc [("_id", .int 9), ("a", .int 1)]],
+  .arr [.str "UpdateOne", .doc [("a", .int 1)], .doc [("$set", .doc [("b", .int 1)])], .bool false],
+  .arr [.str "DeleteMany", .doc [("a", .int 1)]],
+  .arr [.str "DeleteOne", .doc [("a", .int 1)]]]
+
+/-- non-vacuity: the hypotheses hold of `demoReqs` on `demo`; the selections have the sizes
+    3, –, 5 (1 matched), 5, 0: `nMatched = 3 + 1`, `nRemoved = 5 + 0` -/
+example :
+    (demoReqs.all plainRequest && demoReqs.all noUpsert) = true ∧
+    (∀ k < demoReqs.length, IdInv (seqOps {} 0 ((demoReqs.take k).map asSingle) demo) ∧
+      GoodKeys (seqOps {} 0 ((demoReqs.take k).map asSingle) demo)) ∧
+    (match bulkCounts {} 0 demoReqs demo with
+     | .ok md => md == (4, 5)
+     | .error _ => false) = true ∧
+    (match (bulkWrite {} 0 demo demoReqs true).2 with
+     | .val (.doc fs) => dget "nMatched" fs == some (.int 4) && dget "nRemoved" fs == some (.int 5)
+         && dget "nInserted" fs == some (.int 1)
+     | _ => false) = true :=
+  ⟨by decide +kernel, Proofs.C10Ext.along_check {} 0 demoReqs demo (by decide +kernel),
+   by decide +kernel, by decide +kernel⟩
 
 end MongoModel.Props.C10
